@@ -97,7 +97,7 @@ var allProps = []string{"C01", "C02", "C03", "C04", "C05", "C06", "C07", "C08", 
 func printManifest() {
 	type obj = map[string]interface{}
 	var checks []obj
-	var na []obj
+	na := []obj{}
 	var served []string
 	for _, id := range allProps {
 		p := core.Registry[id]
